@@ -73,7 +73,8 @@ METHODS_1D = {"INVERSION": SamplingMethod.INVERSION, "BINARYSEARCHTREEADAPTED1D"
 METHODS_ND = {"INVERSION": SamplingMethod.INVERSION, "BINARYSEARCHTREEADAPTED": SamplingMethod.BINARYSEARCHTREEADAPTED}
 ARRAY_SAMPLERS = {"BINARYSEARCHTREE": SamplingMethod.BINARYSEARCHTREE, "HUFFMANNTREE": SamplingMethod.HUFFMANNTREE,
                   "TABLE": SamplingMethod.TABLE, "ALIAS": SamplingMethod.ALIAS}
-MAXDEV = {"1d": 0.0, "2d": 0.0}     # largest oracle residual / lambda seen in this run (evidence)
+NOISE_REL = 1e-13          # a cell whose float mass is below this share of the intensity is a zero-mass cell
+MAXDEV = {"1d": 0.0, "2d": 0.0, "corner": 0.0}     # largest oracle residual / lambda seen in this run (evidence)
 
 
 # ------------------------------------------------------------------------------------------------------------ helpers
@@ -309,7 +310,9 @@ def corr_level_1d(ctx, d, cls, cp, g_prev, coarse, tbl, level, exact=False):
                                                        "model": str(m_p[i])}, cls=cls)
             return False
     coupled = coupled_rates_1d(len(qc), qf, P)
-    bad = [j for j in range(len(qc)) if not relclose(coupled[j], m_coupled[j], floor)]
+    # cancellation-aware scale: 1 - P loses digits relative to the neighbour's whole rate
+    scj = lambda j: fr(qf[2 * j] + (qf[2 * j - 1] if j > 0 else 0.0) + (qf[2 * j + 1] if 2 * j + 1 < n else 0.0))
+    bad = [j for j in range(len(qc)) if not close(coupled[j], m_coupled[j], scale=max(scj(j), floor))]
     if bad:
         ctx.fail("corr", "c03.1d.coupled.model", dl, {"name": "Drivers/C03 coupledRate vs sum of rate x probability_to_right_jump", "j": bad[0],
                                                     "impl": coupled[bad[0]], "model": str(m_coupled[bad[0]])}, cls=cls)
@@ -319,18 +322,22 @@ def corr_level_1d(ctx, d, cls, cp, g_prev, coarse, tbl, level, exact=False):
     saved = cp.uniform
     try:
         odd = [k for k in P if 2.0 ** -18 < P[k] < 1 - 2.0 ** -18]
+        pts = []
         for k in (rng.sample(odd, min(len(odd), 6)) if odd else []):
             for u in (P[k] * (1 - 2.0 ** -20), P[k] * (1 + 2.0 ** -20), rng.random()):
                 if abs(u - P[k]) < P[k] * 2.0 ** -21 or not (0 <= u < 1):
                     ctx.excluded_small_margin += 1
                     continue
                 cp.uniform = ScriptedUniform([u])
-                got = float(sim.coupling_state(k - o))
-                want = rd(ctx.lean(f"couple1d {head} {k - o} {w(u)}"))
-                if fr(got) != want:
-                    ctx.fail("corr", "c03.1d.couple.model", dl, {"name": "Drivers/C03 couple1d vs coupling_state", "increment": k - o, "u": u,
-                                                               "impl": got, "model": str(want), "p_right": P[k]}, cls=cls)
+                pts.append((k - o, u, float(sim.coupling_state(k - o))))
+        if pts:
+            want = rdl(ctx.lean(f"couple1dm {head} [{','.join(str(p[0]) for p in pts)}] {wl([p[1] for p in pts])}"))
+            for (inc, u, got), wv in zip(pts, want):
+                if fr(got) != wv:
+                    ctx.fail("corr", "c03.1d.couple.model", dl, {"name": "Drivers/C03 couple1d vs coupling_state", "increment": inc, "u": u,
+                                                               "impl": got, "model": str(wv), "p_right": P[o + inc]}, cls=cls)
                     return False
+            ctx.branches["c03.1d.couple_points"] += len(pts)
         # a history: one slice of increments with scripted uniforms
         live = [k for k in range(n) if k != o and (k % 2 == 0 or k in P)]
         if live:
@@ -537,13 +544,377 @@ def array_sampler_probe(ctx, name):
         np.random.set_state(st)
 
 
-# ------------------------------------------------------------------------------------------------- n-d
+# ------------------------------------------------------------------------------------------------- n-d (copula coupling)
+class MassRecorder:
+    """wraps model.mass for the duration of one __coupling_state call: the first call is total_mass, the others the corners"""
+
+    def __init__(self, model):
+        self.model, self.orig, self.calls = model, model.mass, []
+
+    def __enter__(self):
+        def rec(a, b, indices=None):
+            v = self.orig(a, b, indices)
+            self.calls.append(float(v))
+            return v
+        self.model.mass = rec
+        return self
+
+    def __exit__(self, *exc):
+        self.model.mass = self.orig
+        return False
+
+
+def nd_state_cells(g, states):
+    cells = {}
+    for cs in states:
+        pt = Coordinates(cs)
+        a = tuple(float(x) for x in g.middle(g.left_point(pt), g[pt]))
+        b = tuple(float(x) for x in g.middle(g[pt], g.right_point(pt)))
+        cells[cs] = (a, b)
+    return cells
+
+
+def copula_case(rng, thorough):
+    fams = ["hem", "merton", "vg", "cgmy"]
+    margins = []
+    for _ in range(2):
+        f = rng.choice(fams)
+        p = zoo.draw_params(rng, f, y_branch=rng.choice([-0.5, 0.0, 0.5] + ([1.5] if thorough and rng.random() < 0.15 else []))
+                            if f == "cgmy" else None) if rng.random() < 0.7 else {}
+        margins.append((f, p))
+    cop = rng.choice(zoo.COPULAS)
+    cop_kw = dict(theta=rng.choice([0.3, 0.7, 1.0, 2.5]), eta=rng.choice([0.1, 0.3, 0.5, 0.9])) if cop == "clayton" else {}
+    nb = rng.choice([3, 5])
+    return dict(stream="copula", margins=margins, copula=cop, copula_kw=cop_kw, h=rng.choice([0.2, 0.1, 0.05]), nb=nb,
+                L=rng.choice([1, 2]) if nb == 3 else 1, method=rng.choice(list(METHODS_ND)))
+
+
+def nd_level(ctx, d, cls, cm, cp, g_prev, coarse, standalone, pms, level, corr):
+    """S + C for one level of a 2-d copula coupling; returns False after a failure"""
+    rng = ctx.rng
+    g = cp.grid
+    dim = 2
+    dl = dict(d, level=level)
+    axes = zoo.axis_list(g)
+    axes_p = zoo.axis_list(g_prev)
+    o = int(list(g.origin_coordinate)[0])
+    op = int(list(g_prev.origin_coordinate)[0])
+    n, n_c = len(axes[0]), len(axes_p[0])
+    if any(ax[0::2] != axp for ax, axp in zip(axes, axes_p)) or o != 2 * op or cp.level != level:
+        ctx.fail("oracle", "c03.nd.nesting", dl, {"fine_even": axes[0][0::2], "coarse": axes_p[0], "origins": [o, op]}, cls=cls)
+        return False
+    states = list(itertools.product(range(n), repeat=dim))
+    cstates = list(itertools.product(range(n_c), repeat=dim))
+    origin, corigin = (o,) * dim, (op,) * dim
+    cells, ccells = nd_state_cells(g, states), nd_state_cells(g_prev, cstates)
+    fmass, cmass = cp.fine_process.model.mass, coarse.model.mass
+    rate = {cs: (0.0 if cs == origin else float(fmass(*cells[cs]))) for cs in states}
+    crate = {cs: (0.0 if cs == corigin else float(cmass(*ccells[cs]))) for cs in cstates}
+    lam = float(cp.fine_process.intensity_of_jumps)
+    tol = ORACLE_REL * max(lam, 1e-300)
+    sim = cp._path_coupling_simulation
+    cstate = sim._CouplingLevyCopulaSimulation__coupling_state
+    saved_u = cp._uniform
+    probs, flows = {}, {cs: 0.0 for cs in cstates}
+    try:
+        for cs in states:
+            inc = tuple(c - o for c in cs)
+            S = [k for k in range(dim) if inc[k] % 2]
+            if not S:
+                # all coordinates even: copied, no uniform, no mass evaluation
+                cp._uniform = ScriptedUniform([])
+                with MassRecorder(cp.model) as rec:
+                    v = cstate(inc)
+                if tuple(float(x) for x in v) != tuple(axes[k][cs[k]] for k in range(dim)) or cp._uniform.calls or rec.calls:
+                    ctx.fail("oracle", "c03.nd.even_copied", dl, {"increment": inc, "returned": [float(x) for x in v]}, cls=cls)
+                    return False
+                flows[tuple(c // 2 for c in cs)] += rate[cs]
+                continue
+            if not rate[cs] > NOISE_REL * lam:
+                # never drawn: mass 0 up to the rounding of the inclusion-exclusion of tail integrals (its total_mass may be 0
+                # or noise of either sign); what it could contribute is below the oracle's tolerance
+                ctx.branches["c03.nd.zero_mass_states_skipped"] += 1
+                continue
+            cp._uniform = ScriptedUniform([2.0])
+            with MassRecorder(cp.model) as rec:
+                try:
+                    cstate(inc)
+                    ran_through = False
+                except ValueError:
+                    ran_through = True                     # u = 2 > sum of the probabilities: the loop visited every corner
+            if not ran_through or len(rec.calls) != 1 + 2 ** len(S) or not rec.calls[0] > 0:
+                ctx.fail("oracle", "c03.nd.corner_probs", dl, {"increment": inc, "what": "loop did not visit 2^|S| corners of a cell of positive mass",
+                                                              "mass_calls": rec.calls}, cls=cls)
+                return False
+            total, pm = rec.calls[0], rec.calls[1:]
+            p = [x / total for x in pm]
+            probs[cs] = p
+            # S: the corner probabilities are probabilities and sum to 1
+            if min(pm) < -ORACLE_REL * lam or not abs(math.fsum(pm) - total) <= ORACLE_REL * lam:
+                ctx.fail("oracle", "c03.nd.corner_probs_sum_one", dl, {"increment": inc, "corner_masses": pm, "total_mass": total,
+                                                                      "sum_of_probabilities": math.fsum(p)}, cls=cls)
+                return False
+            MAXDEV["corner"] = max(MAXDEV["corner"], abs(math.fsum(pm) - total) / lam)
+            # S: where each corner goes: an adjacent state with even (= coarse) coordinates on S, unchanged elsewhere
+            cum = 0.0
+            for q, sg in zip(p, itertools.product([-1, 1], repeat=len(S))):
+                tgt = list(cs)
+                for k, s_ in zip(S, sg):
+                    tgt[k] += s_
+                flows[tuple(c // 2 for c in tgt)] += rate[cs] * q
+                if q > 2.0 ** -18:
+                    cp._uniform = ScriptedUniform([cum + q / 2])
+                    v = [float(x) for x in cstate(inc)]
+                    if v != [axes[k][tgt[k]] for k in range(dim)] or any(t % 2 for t in tgt):
+                        ctx.fail("oracle", "c03.nd.odd_adjacent", dl, {"increment": inc, "u": cum + q / 2, "returned": v,
+                                                                      "expected_state": tgt}, cls=cls)
+                        return False
+                cum += q
+    finally:
+        cp._uniform = saved_u
+    # ---- C first (needed to decide whether a telescoping failure mirrors the model)
+    mirrors, m_coupled = None, None
+    if corr:
+        rows = ctx.lean(f"qnd {wll(axes)} {o}")[1:-1].split(";")
+        vals = []
+        for r in rows:
+            t = r.split(",")
+            k = int(t[0])
+            S = [int(x) for x in t[1:1 + k]]
+            nums = [float(Fraction(x)) for x in t[1 + k:]]
+            a, b = tuple(nums[0::2]), tuple(nums[1::2])
+            vals.append(float(cm.mass(a, b) if len(S) == dim else cm.mass(a, b, list(S))))
+        # the first block of queries are the cells of the non-origin fine states: a cell the oracle treats as a zero-mass
+        # cell (float noise of the inclusion-exclusion) is handed to the model as mass 0, so that both skip the same states
+        for i, cs in enumerate(c for c in states if c != origin):
+            if not rate[cs] > NOISE_REL * lam:
+                vals[i] = 0.0
+        if not finite(vals):
+            ctx.branches["c03.nd.corr_skipped_nonfinite_mass"] += 1
+        else:
+            head = f"{wll(axes)} {o} {wl(vals)}"
+            out = ctx.lean(f"cnd {head}").split(" ")
+            if out[0] == "bad-op":
+                raise Infra("Drivers/C03 cnd rejected its own query list")
+            m_probs, m_rate, m_coupled, m_crate = rdll(out[0]), rdl(out[1]), rdl(out[2]), rdl(out[3])
+            floor = fr(max(lam, 1e-300)) * Fraction(1, 2 ** 20)      # cell masses come from inclusion-exclusion of tail integrals
+            for i, cs in enumerate(states):
+                if rate[cs] > NOISE_REL * lam and not relclose(rate[cs], m_rate[i], floor):
+                    ctx.fail("corr", "c03.nd.rates.model", dl, {"name": "Drivers/C03 fine rateNd vs fine_process.model.mass(cell)", "state": list(cs),
+                                                              "impl": rate[cs], "model": str(m_rate[i])}, cls=cls)
+                    return False
+                if cs in probs and not (len(m_probs[i]) == len(probs[cs]) and all(close(a, b, scale=Fraction(1)) for a, b in zip(probs[cs], m_probs[i]))):
+                    ctx.fail("corr", "c03.nd.corner_probs.model", dl, {"name": "Drivers/C03 cornerProbs vs p_mass/total_mass of __coupling_state",
+                                                                     "state": list(cs), "impl": probs[cs], "model": [str(x) for x in m_probs[i]]}, cls=cls)
+                    return False
+            for i, cs in enumerate(cstates):
+                if not relclose(crate[cs], m_crate[i], floor):
+                    ctx.fail("corr", "c03.nd.rates.model", dl, {"name": "Drivers/C03 coarse rateNd vs chain on the un-refined grid", "state": list(cs),
+                                                              "impl": crate[cs], "model": str(m_crate[i])}, cls=cls)
+                    return False
+            lam_q = fr(max(lam, 1e-300))
+            mirrors = all(close(flows[cs], m_coupled[i], scale=lam_q) for i, cs in enumerate(cstates))
+            if not mirrors:
+                i = next(i for i, cs in enumerate(cstates) if not close(flows[cs], m_coupled[i], scale=lam_q))
+                ctx.fail("corr", "c03.nd.coupled.model", dl, {"name": "Drivers/C03 coupledRateNd vs sum of rate x corner probability", "state": list(cstates[i]),
+                                                            "impl": flows[cstates[i]], "model": str(m_coupled[i])}, cls=cls)
+                return False
+            # __coupling_state with the uniform patched around the model's breakpoints
+            try:
+                live = [cs for cs in probs if all(q == 0 or q > 2.0 ** -18 for q in probs[cs])]
+                pts = []
+                for cs in rng.sample(live, min(len(live), 6)):
+                    inc = tuple(c - o for c in cs)
+                    cum = list(itertools.accumulate(probs[cs]))
+                    us = [rng.random()] + [c * (1 - 2.0 ** -20) for c in cum[:-1] if c > 0] + [c * (1 + 2.0 ** -20) for c in cum[:-1] if 0 < c < 0.999]
+                    for u in us:
+                        if any(abs(u - c) <= c * 2.0 ** -21 for c in cum) or not 0 < u < cum[-1] * (1 - 2.0 ** -20):
+                            ctx.excluded_small_margin += 1
+                            continue
+                        cp._uniform = ScriptedUniform([u])
+                        pts.append((inc, u, [float(x) for x in cstate(inc)], probs[cs]))
+                if pts:
+                    ans = rdll(ctx.lean(f"couplendm {head} {wll([p[0] for p in pts])} {wl([p[1] for p in pts])}"))
+                    for (inc, u, got, pr), row in zip(pts, ans):
+                        if [fr(x) for x in got] != row:
+                            ctx.fail("corr", "c03.nd.couple.model", dl, {"name": "Drivers/C03 coupleNd vs __coupling_state", "increment": inc, "u": u,
+                                                                       "impl": got, "model": [str(x) for x in row], "probs": pr}, cls=cls)
+                            return False
+                    ctx.branches["c03.nd.couple_points"] += len(pts)
+            finally:
+                cp._uniform = saved_u
+    # ---- S: telescoping
+    dependent = d["copula"] != "independent"
+    worst = max(cstates, key=lambda cs: 0.0 if cs == corigin else abs(flows[cs] - crate[cs]))
+    dev = abs(flows[worst] - crate[worst])
+    if not dependent:
+        MAXDEV["2d"] = max(MAXDEV["2d"], dev / max(lam, 1e-300))
+    if worst != corigin and not dev <= tol:
+        ctx.fail("oracle", "c03.nd.telescoping", dl, {"coarse_state": list(worst), "coupled_coarse_rate": flows[worst],
+                                                     "coarse_chain_rate": crate[worst], "relative_to_lambda": dev / max(lam, 1e-300),
+                                                     "lambda_fine": lam}, cls=dict(cls, copula_dependent=dependent), mirrors_model=mirrors)
+        ctx.branches[f"c03.nd.telescoping_fails:{d['copula']}"] += 1
+        return True                                       # recorded; the rest of the level is still checked
+    ctx.branches[f"c03.nd.telescoping_holds:{d['copula']}"] += 1
+    return True
+
+
+def nd_level_bookkeeping(ctx, d, cls, cp, coarse, standalone, pms, level):
+    dl = dict(d, level=level)
+    D2, Dc = np.asarray(cp._diffusion_matrix_2h, dtype=float), np.asarray(coarse._path_simulation.diffusion_matrix, dtype=float)
+    D1, Df = np.asarray(cp._diffusion_matrix_h, dtype=float), np.asarray(standalone._path_simulation.diffusion_matrix, dtype=float)
+    if not (np.allclose(D2, Dc, rtol=1e-12, atol=1e-300) and np.allclose(D1, Df, rtol=1e-9, atol=1e-300)):
+        ctx.fail("oracle", "c03.nd.diffusion", dl, {"coupling_2h": D2.tolist(), "level_l_minus_1_chain": Dc.tolist(), "coupling_h": D1.tolist(),
+                                                  "level_l_chain": Df.tolist()}, cls=cls)
+        return False
+    ts = np.array([0.0, 1.0, 0.37])
+    both = np.asarray(pms[-1].deterministic_path(ts), dtype=float)
+    want_c, want_f = np.asarray(coarse.deterministic_path(ts), dtype=float), np.asarray(standalone.deterministic_path(ts), dtype=float)
+    if both.shape[0] != 2 or not (np.allclose(both[1], want_c, rtol=1e-12, atol=1e-13) and np.allclose(both[0], want_f, rtol=1e-12, atol=1e-13)):
+        ctx.fail("oracle", "c03.nd.drift", dl, {"coupled_paths": both.tolist(), "level_l_minus_1_chain": want_c.tolist(),
+                                              "level_l_chain": want_f.tolist()}, cls=cls)
+        return False
+    ps = cp.fine_process._path_simulation
+    if hasattr(ps, "_brownian_increments"):
+        wv = np.array([[0.5, -1.25, 2.0], [1.5, 0.25, -0.75]])
+        sq = np.array([0.5, 0.75, 0.25])
+        keep = ps._brownian_increments
+        ps._brownian_increments = deque([wv.tolist()])
+        try:
+            df, dc = cp._path_coupling_simulation.simulate_diffusion_with_coupling(sq)
+        finally:
+            ps._brownian_increments = keep
+        ef, ec = np.cumsum(sq * (Df @ wv), axis=1), np.cumsum(sq * (Dc @ wv), axis=1)
+        if not (np.allclose(df, ef, rtol=1e-9, atol=1e-300) and np.allclose(dc, ec, rtol=1e-9, atol=1e-300)):
+            ctx.fail("oracle", "c03.nd.same_brownian", dl, {"fine": np.asarray(df).tolist(), "coarse": np.asarray(dc).tolist(),
+                                                          "expected_fine": ef.tolist(), "expected_coarse": ec.tolist()}, cls=cls)
+            return False
+    return True
+
+
+def build_copula_model(d):
+    if d.get("stream") == "cex":
+        margins = []
+        for knots, heights in (([0.0, 0.5], [1.0]), ([0.0, 1.0], [0.5])):
+            m = zoo.make_levy("hem", dict(sigma=0.0))
+            m.levy_triplet.nu = zoo.TableMeasure(knots, heights)
+            margins.append(m)
+        return zoo.make_copula_model(margins, zoo.make_copula("dependent"))
+    margins = [zoo.make_levy(f, p) for f, p in d["margins"]]
+    return zoo.make_copula_model(margins, zoo.make_copula(d["copula"], **d["copula_kw"]))
+
+
+def copula_probe(ctx, d, corr=True):
+    cls = dict(stream=d["stream"], copula=d["copula"], dimension=2)
+    guarded(ctx, d, cls, _copula_probe, ctx, d, cls, corr)
+
+
+def _copula_probe(ctx, d, cls, corr):
+    cm = build_copula_model(d)
+    g, _ = zoo.make_grid("fixed", None, d["h"], nb_of_points=d["nb"], dimension=2)
+    method = METHODS_ND[d["method"]]
+    prod = the_product()
+    cp = CouplingProcessLevyCopula(cm, g, method)
+    cp.initialisation(prod)
+    cp.pre_computation(2, prod)
+    pms = [MLMCPath(cp.fine_process.deterministic_path, False)]
+    for level in range(1, d["L"] + 1):
+        g_prev = copy.deepcopy(cp.grid)
+        coarse = MarkovChainLevyCopula(cm, g_prev, method)
+        coarse.initialisation(prod)
+        cp.next_level(2, pms, prod)
+        standalone = MarkovChainLevyCopula(cm, copy.deepcopy(cp.grid), method)
+        standalone.initialisation(prod)
+        ctx.count("c03.nd.level", dict(d, level=level), nontrivial=True, branch=f"{d['copula']}:nb{d['nb']}:L{level}:{d['method']}")
+        if not nd_level(ctx, d, cls, cm, cp, g_prev, coarse, standalone, pms, level, corr):
+            return
+        if not nd_level_bookkeeping(ctx, d, cls, cp, coarse, standalone, pms, level):
+            return
+
+
+def cex_probe(ctx):
+    """the Lean negation witness `telescoping_nd_counterexample` replayed on the implementation"""
+    d = dict(stream="cex", copula="dependent", copula_kw={}, h=1.0, nb=3, L=1, method="INVERSION")
+    cls = dict(stream="cex", copula="dependent", dimension=2)
+    out = ctx.lean("cex").split(" ")
+    m_fine, m_coupled, m_coarse, m_probs = rdl(out[0]), rd(out[1]), rd(out[2]), rdl(out[3])
+    cm = build_copula_model(d)
+    g, _ = zoo.make_grid("fixed", None, 1.0, nb_of_points=3, dimension=2)
+    prod = the_product()
+    cp = CouplingProcessLevyCopula(cm, g, SamplingMethod.INVERSION)
+    cp.initialisation(prod)
+    cp.pre_computation(2, prod)
+    g_prev = copy.deepcopy(cp.grid)
+    coarse = MarkovChainLevyCopula(cm, g_prev, SamplingMethod.INVERSION)
+    cp.next_level(2, None, prod)
+    ctx.count("c03.nd.cex", d, nontrivial=True)
+    axes = zoo.axis_list(cp.grid)
+    cstate = cp._path_coupling_simulation._CouplingLevyCopulaSimulation__coupling_state
+    cp._uniform = ScriptedUniform([2.0])
+    with MassRecorder(cp.model) as rec:
+        try:
+            cstate((0, 1))
+        except ValueError:
+            pass
+    p = [x / rec.calls[0] for x in rec.calls[1:]]
+    ok = [fr(x) for x in axes[0]] == m_fine and [fr(x) for x in p] == m_probs
+    # coupled rate of the coarse state (0, 1) = fine index (2, 4); coarse rate from the chain on the un-refined grid
+    states = list(itertools.product(range(5), repeat=2))
+    cells = nd_state_cells(cp.grid, states)
+    fm = cp.fine_process.model.mass
+    flow = 0.0
+    for cs in states:
+        if cs == (2, 2):
+            continue
+        r = float(fm(*cells[cs]))
+        if r <= 0:
+            continue
+        inc = (cs[0] - 2, cs[1] - 2)
+        S = [k for k in range(2) if inc[k] % 2]
+        if not S:
+            flow += r if cs == (2, 4) else 0.0
+            continue
+        cp._uniform = ScriptedUniform([2.0])
+        with MassRecorder(cp.model) as rec:
+            try:
+                cstate(inc)
+            except ValueError:
+                pass
+        for q, sg in zip(rec.calls[1:], itertools.product([-1, 1], repeat=len(S))):
+            tgt = list(cs)
+            for k, s_ in zip(S, sg):
+                tgt[k] += s_
+            if tuple(tgt) == (2, 4):
+                flow += r * q / rec.calls[0]
+    ccells = nd_state_cells(g_prev, [(1, 2)])
+    crate = float(coarse.model.mass(*ccells[(1, 2)]))
+    mirrors = ok and fr(flow) == m_coupled and fr(crate) == m_coarse
+    if not mirrors:
+        ctx.fail("corr", "c03.nd.cex.model", d, {"name": "Lean witness telescoping_nd_counterexample vs the implementation", "impl_coupled": flow,
+                                               "impl_coarse": crate, "impl_corner_probs": p, "model": out[1:4]}, cls=cls)
+    if flow != crate:
+        ctx.fail("oracle", "c03.nd.telescoping", d, {"coarse_state": [1, 2], "coupled_coarse_rate": flow, "coarse_chain_rate": crate,
+                                                    "corner_probs_of_fine_state_(0,1/2)": p}, cls=dict(cls, copula_dependent=True), mirrors_model=mirrors)
+
+
 def run_nd(ctx, corr=True):
-    pass
+    rng = ctx.rng
+    if corr:
+        guarded(ctx, dict(stream="cex"), dict(stream="cex", dimension=2), cex_probe, ctx)
+    # every copula at least once, then random draws
+    fixed = [dict(stream="copula", margins=[("hem", {}), ("merton", {})], copula=c, copula_kw=(dict(theta=0.7, eta=0.3) if c == "clayton" else {}),
+                  h=0.1, nb=5, L=1, method="BINARYSEARCHTREEADAPTED") for c in zoo.COPULAS]
+    for d in fixed:
+        copula_probe(ctx, d, corr=corr)
+    for _ in range(ctx.n(14, 300)):
+        copula_probe(ctx, copula_case(rng, ctx.thorough), corr=corr)
 
 
 def replay_nd(ctx, d):
-    pass
+    if d.get("stream") == "cex":
+        cex_probe(ctx)
+    else:
+        copula_probe(ctx, dict(d, margins=[tuple(m) for m in d["margins"]]))
 
 
 # ------------------------------------------------------------------------------------------------------------ entry points
@@ -556,7 +927,8 @@ def run(ctx, corr=True):
         for name in list(ARRAY_SAMPLERS) + list(METHODS_1D):
             array_sampler_probe(ctx, name)
     run_nd(ctx, corr=corr)
-    ctx.notes.append(f"largest oracle residual / lambda: 1-d {MAXDEV['1d']:.2e}, 2-d independent {MAXDEV['2d']:.2e} (threshold {ORACLE_REL})")
+    ctx.notes.append(f"largest oracle residual / lambda: 1-d {MAXDEV['1d']:.2e}, 2-d independent {MAXDEV['2d']:.2e}, "
+                     f"|sum of corner masses - total| / lambda {MAXDEV['corner']:.2e} (threshold {ORACLE_REL})")
 
 
 def search(ctx):
